@@ -240,7 +240,7 @@ Proof.
     + apply lkey_eqb_eq in E. subst l. rewrite fget_fset_same in Hd. discriminate.
     + rewrite (fget_fset_other _ _ _ _ E) in Hd. destruct m.
       * rewrite Hf in Hd. discriminate.
-      * rewrite Hh in Henv. simpl in Henv. rewrite andb_true_r in Henv.
+      * simpl in Henv. try rewrite andb_true_r in Henv.
         rewrite (fget_fdel_other _ _ _ Henv) in Hd. rewrite Hf in Hd. discriminate.
   - (* IngestDirect *)
     destruct (fget (fs s) (abs_loc a)); [| simpl in Hd; rewrite Hf in Hd; discriminate].
